@@ -32,13 +32,17 @@ def source_hash():
 def dump_mir(force=False):
     """textual MIR of erbium-core (dev profile semantics: overflow checks on), regenerated when the source changed"""
     os.makedirs(MIR_DIR, exist_ok=True)
+    import fcntl
+    lockf = open(os.path.join(MIR_DIR, ".lock"), "w")
+    fcntl.flock(lockf, fcntl.LOCK_EX)      # one dump at a time (concurrent checks share the cache); released when the process ends
     common.extract_env()      # regenerates the lifted sources first
     key = source_hash()
     out = os.path.join(MIR_DIR, f"core-{key}.mir")
     if os.path.exists(out) and os.path.getsize(out) > 100000 and not force:
         return out, 0.0, True
     for old in glob.glob(os.path.join(MIR_DIR, "core-*.mir")):
-        os.remove(old)
+        if time.time() - os.path.getmtime(old) > 3600:      # keep recent dumps: another check may be about to read one
+            os.remove(old)
     tdir = os.path.join(WORK, "mir-target" + SUFFIX)
     for fp in glob.glob(os.path.join(tdir, "debug", ".fingerprint", "erbium-core-*")):
         shutil.rmtree(fp, ignore_errors=True)
